@@ -403,12 +403,6 @@ Theorem mon12_ba_silent : forall inp, mon12_ba inp (run12_ba inp) = [].
 Proof. intros inp. apply mon12_ba_silent_on_allowed. apply agree12_ba_refl. Qed.
 
 (** ---- the judge: "agree" implies "no violation" ---- *)
-Definition judged_agree (v : sx) : bool := sx_bool (sx_nth v 0).
-Definition judged_violates (v : sx) : bool := sx_bool (sx_nth v 1).
-
-Lemma verdict_fields a v m d : judged_agree (verdict a v m d) = a /\ judged_violates (verdict a v m d) = v.
-Proof. unfold judged_agree, judged_violates, verdict, sx_nth. cbn [sx_list nth]. rewrite !sx_bool_of_bool. split; reflexivity. Qed.
-
 Lemma judge12_ba_fields inp obs :
   sx_Z (sx_nth inp 0) <> 0 ->
   judged_agree (judge12 inp obs) = agree12_ba inp obs /\
